@@ -411,6 +411,8 @@ def run_construction(ctx, case):
 
 
 def check_any(ctx, case):
+    if case['kind'] == 'lookalike':
+        return check_lookalike(ctx, case)
     if case['kind'] == 'construction':
         return run_construction(ctx, case)
     if case['kind'] == 'chain':
@@ -477,9 +479,75 @@ def random_case(draw):
     return dict(kind='binary', op=op, a=a, b=b)
 
 
+# -- look-alike unit strings -------------------------------------------------------------------------------
+def enum_lookalikes(tier):
+    """'mK' (millikelvin) and 'm K' (metre kelvin): every pair <unit-that-is-also-a-prefix><unit> written with and without the
+    blank, where the two readings have different dimensions.  Both orders of first use occur (the order alternates with
+    the pair's position; every string is used by one pair only, so each pair meets a process that has seen neither)"""
+    from vlib import unitsref as U
+    k = 0
+    for p in sorted(U.UNITS):
+        if p not in U.PREFIXES:
+            continue
+        for u in sorted(U.UNITS):
+            joined, spaced = p + u, p + ' ' + u
+            if joined in U.UNITS or not U.is_known(joined):
+                continue
+            a, b = U.lookup(joined), U.Q(U.UNITS[p].v * U.UNITS[u].v, U.dmul(U.UNITS[p].d, U.UNITS[u].d))
+            if tuple(a.d) == tuple(b.d):
+                continue
+            k += 1
+            yield dict(kind='lookalike', joined=joined, spaced=spaced, first='joined' if k % 2 else 'spaced',
+                       dj=[float(x) for x in a.d], ds=[float(x) for x in b.d], vj=float(a.v), vs=float(b.v))
+
+
+def check_lookalike(ctx, case):
+    m = _pg()
+    order = [case['joined'], case['spaced']] if case['first'] == 'joined' else [case['spaced'], case['joined']]
+    got = {}
+    for text in order:
+        try:
+            got[text] = m['eval_qty'](text)
+        except Exception as e:
+            ctx.fail('lookalike:raises-%s' % type(e).__name__, 'eval_qty(%r) raised %s: %s' % (text, type(e).__name__, e))
+            return
+    ctx.case(nontrivial=True, key=[case['joined'], case['first']], sample=dict(joined=case['joined'], spaced=case['spaced'], evaluated_first=order[0]))
+    ctx.event('lookalike:first=%s' % case['first'])
+    for text, dim, val in ((case['joined'], case['dj'], case['vj']), (case['spaced'], case['ds'], case['vs'])):
+        q = got[text]
+        ex = [float(x) for x in q.units.exps]
+        ctx.count()
+        if ex != dim or abs(float(q.value) - val) > 1e-12 * abs(val):
+            ctx.fail('lookalike:wrong-quantity', 'eval_qty(%r) = %r with exponents %s (evaluated %s in this process, %r %s); its own reading is %r with exponents %s'
+                     % (text, q.value, ex, 'first' if text == order[0] else 'second', order[0] if text != order[0] else order[1],
+                        'before it' if text != order[0] else 'after it', val, dim))
+            return
+    A, B = got[case['joined']], got[case['spaced']]
+    for name, fn in (('+', lambda: A + B), ('-', lambda: B - A), ('<', lambda: A < B), ('in_units', lambda: A.in_units(case['spaced'])),
+                     ('in_units', lambda: B.in_units(case['joined']))):
+        ctx.count()
+        try:
+            r = fn()
+        except m['UnitsError']:
+            continue
+        except Exception as e:
+            ctx.fail('lookalike:%s:raises-%s' % (name, type(e).__name__), '%r %s %r raised %s: %s' % (case['joined'], name, case['spaced'], type(e).__name__, e))
+            continue
+        ctx.fail('lookalike:%s:incompatible-accepted' % name, '%r %s %r = %r although the dimensions differ (%s vs %s)'
+                 % (case['joined'], name, case['spaced'], r, case['dj'], case['ds']))
+    same = (A == B) or not (A != B)
+    try:
+        same = same or bool(A.has_units(B)) or bool(A.has_units(case['spaced']))
+    except m['UnitsError']:
+        pass
+    if same:
+        ctx.fail('lookalike:==-or-has_units', '%r and %r compare equal / as having the same units' % (case['joined'], case['spaced']))
+
+
 FAMILIES = [
     Family('exhaustive', check_any, enumerate=enum_cases),
     Family('random', check_any, strategy=lambda tier: random_case(), n=(12000, 500000)),
     Family('chains', check_any, strategy=lambda tier: chain_case(), n=(4000, 150000)),
     Family('constructions', check_any, enumerate=enum_constructions),
+    Family('lookalikes', lambda ctx, case: check_lookalike(ctx, case), enumerate=enum_lookalikes),
 ]
